@@ -40,10 +40,7 @@ def real_line(data):
 
 # ------------------------------------------------------------------------------------------ diffs
 def weapons_reachable():
-    from richchk.model.richchk.unis.unit_id import UnitId
-    from richchk.model.richchk.unis.unit_to_weapon_lookup import get_weapons_for_unit
-
-    return {w.id for u in UnitId for w in get_weapons_for_unit(u)}
+    return refchk.REACHABLE_WEAPONS
 
 
 def has_gap(data, spec, which):
@@ -315,6 +312,17 @@ def probe_maps(gen, spec):
     if k is not None and len(newp) < 65000:
         mr["records"][k]["_string_id"] = n + 3
         out.append(("editor:probe-interleaved-string-copies", with_sections({b"STR ": newp, b"MRGN": refchk.build(L[b"MRGN"], mr)})))
+    # 6. every weapon some unit carries has its own non-zero base and upgrade damage, and every unit its own hit
+    #    points: each value comes back where it was
+    repl = {}
+    for nm in (b"UNIS", b"UNIx"):
+        if nm in dict(chunks):
+            u = refchk.fields_of(L[nm], dict(chunks)[nm])
+            for arr, f in (("_unit_base_weapon_damages", lambda i: 100 + i), ("_unit_upgrade_weapon_damages", lambda i: 1 + i)):
+                u[arr] = [(f(i) if i in refchk.REACHABLE_WEAPONS else 0) for i in range(len(u[arr]))]
+            repl[nm] = refchk.build(L[nm], u)
+    if repl:
+        out.append(("editor:probe-every-weapon-has-damage", with_sections(repl)))
     return out
 
 
